@@ -13,7 +13,8 @@ NEW = {
             "chunk size; C01_failure_causes lists the only ways an argument-valid call can fail). Tied to /repo by random "
             "programs whose exact integer Jacobians come from the harness' own forward-mode interpreter: "
             "implementation == exact oracle == Coq model (run under 3 enumeration orders, 5 chunk sizes), f64 "
-            "exact, f32 1e-4; plus the pipeline with 10 other deterministic aggregators.",
+            "exact, f32 1e-4; plus the pipeline with 10 other deterministic aggregators. The instance gap is closed by "
+            "theorem: the model commutes with every map preserving 0,1,+,* (C01_executed_model_is_the_real_model).",
             "DESIGN.md §8 C01, §15",
             "Trusted: Coq kernel + stdlib real axioms; Autojac.v model (tied by correspondence); the autograd "
             "environment model (VJP w.r.t. total derivative, None iff unreachable) validated against the exact "
@@ -28,8 +29,9 @@ NEW = {
             "changes nothing else; C02_accepts: argument checks + every engine run of the call succeeding in sequence + "
             "aggregator accepting => accepted. Correspondence: random programs (1-3 features incl. nested, 1-4 tasks, 0-3 "
             "own parameters, sharing, additive same-shape parameters), explicit/defaulted/reordered lists, "
-            "Constant(distinct signed weights)/Sum/Mean, 4 chunk sizes: implementation == exact oracle == Coq "
-            "model; plus UPGrad/DualProj(pref)/Krum through the pipeline.",
+            "parameter lists shortened or extended by the caller, Constant(distinct signed weights)/Sum/Mean, 4 chunk "
+            "sizes: implementation == exact oracle == Coq model; plus UPGrad/DualProj(pref)/Krum through the pipeline. "
+            "The executed QN model, mapped by Q2R, is proved equal to the RN model (C02_executed_model_is_the_real_model).",
             "DESIGN.md §8 C02, §15",
             "Trusted: as C01. The end-to-end reading (M = d losses / d shared) holds when the features form a "
             "cut (C15_chain); with nested features the code back-propagates through `features` as worded.",
@@ -64,17 +66,18 @@ NEW = {
             "C02_deposit per call and by the correspondence, not by the refinement theorem.",
             "Coq proof (invariants over all terms/histories) + history correspondence"),
     "C12": ("proof",
-            "Coq theorems (props/C12.v, axiom-free): on EVERY finite node graph (cyclic or not) the model of the "
-            "breadth-first walk returns exactly the AccumulateGrad nodes reachable from a non-excluded root along "
-            "paths avoiding the excluded nodes (soundness+completeness), without duplicates, and never runs out "
-            "of fuel; backward without inputs IS the explicit call on the discovered set; mtl_backward without "
+            "Coq theorems (props/C12.v, axiom-free): on EVERY finite graph (cyclic or not) the model of the "
+            "breadth-first walk returns exactly the AccumulateGrad nodes reachable from a non-excluded root gradient edge "
+            "along paths none of whose EDGES (node, output number) is excluded (soundness+completeness), without "
+            "duplicates, and never runs out of fuel; an edge is excluded iff it is the gradient edge of an excluded "
+            "tensor, so sibling outputs of a multi-output op stay reachable (genuine defect D4, repaired: fix cc8b49f); backward without inputs IS the explicit call on the discovered set; mtl_backward without "
             "shared_params/tasks_params IS the explicit call on leaves(features) / leaves(loss_i avoiding the "
             "features' nodes); overlapping sets are rejected with the store unchanged. Correspondence: the node "
             "graph is read off the real tensors; model walk == leaf set from the harness' op DAG; defaulted vs "
             "explicit call on twin graphs (all .grad incl. None-ness); chains of depth 8-30, diamonds, detach, "
             "multi-output ops, heads sharing interior nodes, leaves reached around the features.",
             "DESIGN.md §8 C12, §15",
-            "Trusted: Coq kernel; Traverse.v model (tied by correspondence); grad_fn/next_functions/"
+            "Trusted: Coq kernel; Traverse.v model (tied by correspondence); grad_fn/output_nr/next_functions/"
             "AccumulateGrad.variable expose the graph the engine differentiates.",
             "Coq proof (graph reachability) + twin-graph correspondence"),
     "C13": ("proof",
